@@ -20,16 +20,22 @@ def check(run):
     hs = [h for h in hs if any(o["op"] == "pub" for o in h)]
     if not thorough:
         hs = hs[:: max(1, len(hs) // 280)]
+    elif len(hs) > 6000:
+        hs = hs[:: len(hs) // 6000 + 1]
     # QoS 2 handshakes in depth: one message with two destinations, one identifier; PUBLISH, PUBREL (first, repeated, after a failed
     # distribution, after a time-out), failures of either destination toggled in between
     h2 = inboundlib.gen(run, "q2", [1, 2], ["c1"], ["m1"], [1], 6 if thorough else 5, qos=(2,))
     h2 = [h for h in h2 if h[0]["op"] in ("pub", "toggle") and sum(1 for o in h if o["op"] == "pubrel") >= 2
           and any(o["op"] == "toggle" for o in h) and any(o["op"] == "pub" for o in h)]
+    if len(h2) > 2500:
+        h2 = h2[:: len(h2) // 2500 + 1]
     run.log("%d QoS 2 handshake scripts with a repeated PUBREL and an injected failure" % len(h2))
     hs += h2
     # QoS 1 in depth: one identifier re-used for up to three messages (DUP set on the re-uses), failures toggled in between
     h1 = inboundlib.gen(run, "q1", [1, 2], ["c1"], ["m1", "m2", "m3"], [1], 5 if thorough else 4, qos=(1,))
     h1 = [h for h in h1 if sum(1 for o in h if o["op"] == "pub") >= 2 and any(o["op"] == "toggle" for o in h) and not any(o["op"] in ("pubrel", "sweep") for o in h)]
+    if len(h1) > 2500:
+        h1 = h1[:: len(h1) // 2500 + 1]
     run.log("%d QoS 1 scripts re-using one identifier with an injected failure" % len(h1))
     scns = [inboundlib.scenario(h, [1, 2]) for h in hs] + [inboundlib.scenario(h, [1, 2], dupall=True) for h in h1]
     # every seventh scenario: the nodes talk through the project's own rpc package (TLS, interceptors) instead of a bare connection
